@@ -98,23 +98,14 @@ func (l *liveRing) settle() bool {
 	return false
 }
 
+// teardown closes the stores.  The nodes are not asked to leave: with the periodic tasks parked nothing runs on them
+// any more (every operation of the driver is synchronous), and a graceful Leave of every node without maintenance in
+// between spends seconds in retry back-off.  The parked task goroutines stay parked until the process exits.
 func (l *liveRing) teardown() {
-	done := make(chan struct{})
-	go func() {
-		for _, n := range l.nodes {
-			n.Leave()
-		}
-		close(done)
-	}()
-	select {
-	case <-done:
-		for _, c := range l.closer {
-			c()
-		}
-		os.RemoveAll(l.dir)
-	case <-time.After(10 * time.Second):
-		// leave the stores open rather than closing them under a running transfer
+	for _, c := range l.closer {
+		c()
 	}
+	os.RemoveAll(l.dir)
 }
 
 func sigOf(c lkCase) string {
@@ -152,6 +143,12 @@ func build(c lkCase) (*liveRing, string) {
 	rnd := verifkit.Rand(c.Order)
 	order := rnd.Perm(len(c.IDs))
 	l.byIdx = make([]*implchord.LocalNode, len(c.IDs))
+	t0 := time.Now()
+	defer func() {
+		if os.Getenv("VERIF_DEBUG") != "" {
+			fmt.Fprintf(os.Stderr, "ring %d built in %v\n", nRing, time.Since(t0))
+		}
+	}()
 	for k, oi := range order {
 		n := l.r.Node(strconv.Itoa(oi))
 		byID.put(n)
